@@ -183,6 +183,17 @@ func (c *Ctx) pbFields(st *types.Struct, pt types.Type) []pbFD {
 }
 
 func (c *Ctx) pbFieldValue(fd pbFD, raw Value, ft types.Type) Value {
+	// explicit-presence scalars are *T in generated code (proto2 / optional)
+	if p, ok := raw.(*Ptr); ok && fd.kind != 11 {
+		if pt, isPtr := ft.(*types.Pointer); isPtr {
+			if p == nil {
+				raw = zero(pt.Elem())
+			} else {
+				raw = *p.slot
+			}
+			ft = pt.Elem()
+		}
+	}
 	switch fd.kind {
 	case 8:
 		return c.mkPV("bool", raw)
@@ -275,6 +286,8 @@ func (c *Ctx) engineInvoke(recv Iface, method string, args []Value) (Value, bool
 			return Iface{t: r.pt, v: r.p}, true
 		case "ProtoReflect":
 			return recv, true
+		case "GetUnknown":
+			return Slice{}, true // struct-view messages carry no unknown fields
 		case "Descriptor":
 			return Iface{t: pbMDType, v: pbMD{st: r.st, pt: r.pt}}, true
 		case "Type":
@@ -470,6 +483,28 @@ func (c *Ctx) engineInvoke(recv Iface, method string, args []Value) (Value, bool
 			return Bool(r.kind == 11 || r.idx < 0), true
 		case "ContainingOneof":
 			return Iface{}, true
+		case "Message":
+			if r.kind != 11 {
+				return Iface{}, true
+			}
+			// the Go type of the field (or of the oneof wrapper's only field) is *T or []*T
+			var ft types.Type
+			if r.idx >= 0 {
+				ft = r.st.Field(r.idx).Type()
+			} else if wp, ok := r.wrap.(*types.Pointer); ok {
+				if ws, ok := wp.Elem().Underlying().(*types.Struct); ok && ws.NumFields() > 0 {
+					ft = ws.Field(0).Type()
+				}
+			}
+			if sl, ok := ft.(*types.Slice); ok {
+				ft = sl.Elem()
+			}
+			if pt, ok := ft.(*types.Pointer); ok {
+				if st, ok := pt.Elem().Underlying().(*types.Struct); ok {
+					return Iface{t: pbMDType, v: pbMD{st: st, pt: pt}}, true
+				}
+			}
+			c.errf("pb-lite: message type of field %s", r.name)
 		}
 	}
 	return nil, false
